@@ -77,6 +77,7 @@ func runC06(c *core.Ctx) *core.Outcome {
 	cfg.CacheSize = 0
 	cfg.OutputSize = 0
 	cfg.FlagCount = uint32([]int{1, 3, 8, 9, 0, 40}[t.Int(6)])
+	cfg.First = t.Chance(1, 3)
 	a := app.Generate(t, c06Profile(cfg.FlagCount, t.Chance(3, 4)))
 	if err := a.Validate(); err != nil {
 		panic("generator produced ill-formed app: " + err.Error())
